@@ -290,3 +290,12 @@ def c15_h(ctx):
         # the round / batch parameter must not be shadowed by a lookup of another field
         if role == 'index of the seeded unit' and not ok:
             continue
+
+
+@obligation('C15-i', 'T2 T14', 'the sub-seed cache belongs to one computation context: no default '
+            'cache shared by all callers (shared with C02-g)', floor=4,
+            necessary='a cache shared between seeds continues one seed\'s stream for another: the '
+                      'derived seed depends on what was requested before')
+def c15_i(ctx):
+    from . import C02 as _C02
+    return _C02.c02_g(ctx)
